@@ -167,11 +167,8 @@ def check_molecule(g, mol: Mol, text):
 
 
 def _cmp_token(t, ta: Token, what):
-    out = _cmp_token0(t, ta, what)
-    # verified cause of a known defect: a hydrogen written explicitly inside a multi-atom token is counted as an atom by the scanner
-    if out and any(isinstance(x, str) and "[H]" in x and x != "[H]" for x in ta.items) and len(ta.chem()["atoms"]) > 1:
-        return [("explicit-hydrogen-counted-as-atom", msg) for _, msg in out if "atom is" in msg or "fragment" in msg] or out
-    return out
+    # (a hydrogen written explicitly inside a multi-atom token used to be counted as an atom by the scanner: repaired in /repo, no special case any more)
+    return _cmp_token0(t, ta, what)
 
 
 def _cmp_token0(t, ta: Token, what):
